@@ -1,10 +1,64 @@
+// vh — verification harness for artela-evm (built against /repo's current working tree).
 package main
 
 import (
+	"encoding/json"
+	"flag"
 	"fmt"
-	"github.com/artela-network/artela-evm/vm"
+	"os"
+	"path/filepath"
 )
 
+type cmdFn func(args []string) error
+
+var commands = map[string]cmdFn{}
+
 func main() {
-	fmt.Println(len(vm.PrecompiledContractsBerlin))
+	if len(os.Args) < 2 {
+		fmt.Fprintln(os.Stderr, "usage: vh <command> [flags]")
+		os.Exit(2)
+	}
+	fn, ok := commands[os.Args[1]]
+	if !ok {
+		fmt.Fprintln(os.Stderr, "unknown command", os.Args[1])
+		os.Exit(2)
+	}
+	if err := fn(os.Args[2:]); err != nil {
+		fmt.Fprintln(os.Stderr, "vh:", err)
+		os.Exit(3)
+	}
+}
+
+// common flags
+type cmdFlags struct {
+	seed  uint64
+	n     int
+	out   string
+	tier  string
+	fs    *flag.FlagSet
+	extra map[string]*string
+}
+
+func newCommon(name string) *cmdFlags {
+	c := &cmdFlags{fs: flag.NewFlagSet(name, flag.ExitOnError)}
+	c.fs.Uint64Var(&c.seed, "seed", 1, "PRNG seed")
+	c.fs.IntVar(&c.n, "n", 200, "number of generated cases")
+	c.fs.StringVar(&c.out, "out", ".", "output directory")
+	c.fs.StringVar(&c.tier, "tier", "quick", "quick|thorough")
+	return c
+}
+
+func writeFile(dir, name, content string) error {
+	if err := os.MkdirAll(dir, 0o755); err != nil {
+		return err
+	}
+	return os.WriteFile(filepath.Join(dir, name), []byte(content), 0o644)
+}
+
+func writeJSON(dir, name string, v interface{}) error {
+	b, err := json.MarshalIndent(v, "", " ")
+	if err != nil {
+		return err
+	}
+	return writeFile(dir, name, string(b))
 }
